@@ -54,3 +54,19 @@ Proof.
   unfold boot_config, new_config. cbn [fold_left apply_opt default_config routes addr drain read_to write_to idle_to].
   destruct c; reflexivity.
 Qed.
+
+(* Equal looks at every field of the model's records (the drift guard model/HttpCfgFieldsPolicy.v maps the Go
+   struct's fields onto these) *)
+Lemma config_equal_fields key a b : config_equal key a b = true ->
+  addr a = addr b /\ drain a = drain b /\ read_to a = read_to b /\ write_to a = write_to b /\ idle_to a = idle_to b /\
+  routes_equal key (routes a) (routes b) = true.
+Proof.
+  unfold config_equal. intros H.
+  destruct (str_eqb (addr a) (addr b)) eqn:E1; cbn [negb] in H; [|discriminate].
+  destruct (Z.eqb (drain a) (drain b)) eqn:E2; cbn [negb] in H; [|discriminate].
+  destruct (routes_equal key (routes a) (routes b)) eqn:E3; cbn [negb] in H; [|discriminate].
+  destruct (Z.eqb (read_to a) (read_to b)) eqn:E4; cbn [negb] in H; [|discriminate].
+  destruct (Z.eqb (write_to a) (write_to b)) eqn:E5; cbn [negb] in H; [|discriminate].
+  destruct (Z.eqb (idle_to a) (idle_to b)) eqn:E6; cbn [negb] in H; [|discriminate].
+  apply str_eqb_eq in E1. apply Z.eqb_eq in E2, E4, E5, E6. repeat split; assumption.
+Qed.
